@@ -132,13 +132,18 @@ def bump_number(s, rng):
     return s[:i] + str(max(v, 0)) + s[j:]
 
 
+PURE = {}      # scheme -> strings that came straight from the documented-grammar generator
+
+
 def gen_strings(name, rng, n, ascii_only=True):
     out = []
+    pure = PURE.setdefault(name, set())
     for _ in range(n):
         s = S.GEN[name](rng)
         r = rng.random()
         if r < 0.55:
             out.append(s)
+            pure.add(s)
         elif r < 0.75:
             try:
                 out.append(S.RESPELL[name](s, rng))
